@@ -3,7 +3,7 @@
    N, Z, positive, nat stay the extracted inductive types. No Extract Constant. *)
 Require Extraction.
 From Coq Require Import ExtrOcamlBasic ZArith.
-From TR Require Import Model.Fallback.
+From TR Require Import Model.Fallback Model.Bulkhead.
 
 Definition z_add := Z.add.
 Definition z_mul := Z.mul.
@@ -11,5 +11,6 @@ Definition z_quotrem := Z.quotrem.
 Definition z_opp := Z.opp.
 
 Definition run_C17 := Model.Fallback.run_script.
+Definition run_C01 := Model.Bulkhead.run_script.
 
-Separate Extraction z_add z_mul z_quotrem z_opp run_C17.
+Separate Extraction z_add z_mul z_quotrem z_opp run_C17 run_C01.
